@@ -50,3 +50,26 @@ package sqlx
 //@   requires fn != nil
 //@   ensures calls(fn) == old(calls(fn)) + 1 && result == ret(fn) && !panicked(fn)
 //@   ensures_panic calls(fn) == old(calls(fn)) + 1 && panicked(fn)
+
+// the public transaction entry of a connection: exactly one breaker-protected activation whose body is exactly
+// transact(ctx, db, db.beginTx, fn), and the caller gets the breaker's result as it is (in particular: nil only if the
+// transaction layer returned nil, i.e. committed)
+//@ func startSpan
+//@   property C14
+//@   trusted
+//@   modifies nothing
+//@   allocates
+//@ func endSpan
+//@   property C14
+//@   trusted
+//@   modifies nothing
+//@ func (db *commonSqlConn) TransactCtx
+//@   property C14
+//@   requires db != nil && db.brk != nil
+//@   ensures bdoCalls == old(bdoCalls) + 1 && err == bdoResult
+//@   ensures_panic false
+//@ func (db *commonSqlConn) TransactCtx closure 1
+//@   property C14
+//@   flag callbacks_noheap
+//@   requires db.beginTx != fn && db.connProv != fn && db.connProv != db.beginTx && db.onError != fn && db.onError != db.beginTx
+//@   call transact#0: assert arg_db == db && arg_b == db.beginTx && arg_fn == fn
